@@ -3,6 +3,7 @@
   Property theorems about the model `Pint.UC` (pint/util.py `UnitsContainer`).
 -/
 import PintModel.Proofs.UCLemmas
+import PintModel.Proofs.PiLemmas
 
 namespace Pint.Props.C04
 open Pint Pint.UC
@@ -214,6 +215,18 @@ theorem hash_cache_inv_cow (a : UCObj) (k k2 : String) (v : Rat) (ks : List Stri
   · unfold UCObj.add at hu; cases h : a.d.add k v <;> simp [h] at hu; subst hu; exact Or.inl rfl
   · unfold UCObj.rename at hu; cases h : a.d.rename k k2 <;> simp [h] at hu; subst hu; exact Or.inl rfl
   · unfold UCObj.remove at hu; cases h : a.d.remove ks <;> simp [h] at hu; subst hu; exact Or.inl rfl
+
+/-! ### Buckingham pi: every returned group is a dimensionless monomial of the inputs -/
+
+/-- soundness of `pi_theorem` (model `Pi.piRows` = `column_echelon_form` + extraction): for every
+    matrix of dimension exponents, each returned exponent vector has zero total exponent in
+    every dimension.  (That the groups form a *basis* — count = n − rank, independence — is
+    checked by the correspondence against an independent exact rank computation: partial.) -/
+theorem pi_sound (matrix : Pi.Mat) :
+    ∀ v ∈ Pi.piRows matrix, ∀ x ∈ Pi.monomialDims matrix v, x = 0 :=
+  Pi.pi_sound' matrix
+
+example : Pi.piRows [[1, 1, 0], [-1, 0, 1]] = [[1, -1, 1]] := by decide +kernel
 
 /-! ### non-vacuity: the hypotheses are satisfiable on concrete non-trivial containers -/
 
